@@ -77,6 +77,7 @@ class MP:
 
 class ExpHooks(GslHooks):
     """matrix-polynomial interpretation of MatrixExp.cpp"""
+    opaque_minmax = True  # min/max of norm estimates stay opaque scalars (one path choice per threshold comparison)
 
     def __init__(self, choices, n):
         GslHooks.__init__(self)
@@ -131,20 +132,16 @@ class ExpHooks(GslHooks):
 
     def override_call(self, it, fdecl, node, args, this_cell):
         nm = fdecl['name']
-        if nm == ME + 'gsl_matrix_complex_holder::reset':
-            # after reset the holder has a matrix of the requested shape whose contents are whatever an earlier call left
-            o = this_cell.value
-            n1, n2 = it.eval(args[0]), it.eval(args[1])
-            cur = o.fields['m'].value if 'm' in o.fields else NULL
-            if isinstance(cur, Ptr) and not cur.is_null():
-                m = matrix_of(cur)
-                if (m.n1, m.n2) == (n1, n2):
-                    m.defined = False
-                    m.mp = None
-                    return None
-            m = self.new_matrix(n1, n2, this_cell.name or 'holder')
-            o.field('m').value = m.ptr
-            return None
+        if nm == ME + 'gsl_matrix_complex_holder::reset' and not getattr(self, '_in_reset', False):
+            # the body is interpreted as written (whether it re-allocates, and what it returns, are the library's business);
+            # a matrix it keeps holds whatever an earlier use left in it, a matrix it allocates is undefined
+            vals = [it.eval(a) for a in args]
+            self._in_reset = True
+            try:
+                r = it.call(fdecl, this_cell, vals, node)
+            finally:
+                self._in_reset = False
+            return r
         if nm in (ME + 'gsl_matrix_complex_mul', ME + 'gsl_matrix_complex_add', ME + 'gsl_matrix_complex_sub'):
             O, I = self.mat(it, args[0]), self.mat(it, args[1])
             re_, im_ = cplx_parts(it.eval(args[2]))
@@ -176,7 +173,7 @@ class ExpHooks(GslHooks):
             M = self.mat(it, args[0])
             self.read(it, M, node, 'argument of ell')
             m = it.eval(args[1])
-            self.events.append(('ell', m))
+            self.events.append(('ell', m, M.mp))
             # numerically ell() is 0 whenever it is consulted on the accepted path; the rejecting value is the next choice
             return 0 if self.ch.pick('ell(A,%s)==0' % m, 2) == 0 else 1
         if nm == ME + 'solve_P_Q':
@@ -388,11 +385,25 @@ def check_helpers(db, rep):
                      'different element-wise result', f['name'])
 
 
-def explore_paths(db, rep, tables):
+class WarmChoices:
+    """choices of the call made beforehand on the same thread: reject every low order, scale once, no extra scaling —
+    the path that touches every scratch holder"""
+
+    def __init__(self):
+        self.log = []
+
+    def pick(self, label, n):
+        c = 0 if label.startswith('ell') else 1
+        self.log.append((label, c, n))
+        return c
+
+
+def explore_paths(db, rep, tables, n=3, warm_n=None):
+    """all order/scaling paths of one call for an n x n matrix; with warm_n, the call is preceded on the same thread by a
+    call for a warm_n x warm_n matrix (thread-local scratch holders keep what that call left in them)"""
     unit = db.unit('MatrixExp')
     f = db.one('MatrixExp', ME + 'matrix_exponential', 2)
     rep.fn(f['name'])
-    n = 3
     seen_orders = {}
     thresholds = []
     stale = {}
@@ -401,6 +412,29 @@ def explore_paths(db, rep, tables):
 
     def one(ch):
         hooks = ExpHooks(ch, n)
+        if warm_n is not None:
+            hooks.ch = WarmChoices()
+            hooks.n = warm_n
+            W = hooks.new_matrix(warm_n, warm_n, 'Aprev', lambda r, c: CPoly(Poly.const(2 - r + c), Poly.const(0.25 * (r + c))))
+            W.mp = MP('A', {1: 1.0})
+            W.defined = True
+            eW = hooks.new_matrix(warm_n, warm_n, 'eAprev')
+            try:
+                Interp(unit, hooks).call(f, None, [eW.ptr, W.ptr])
+            except Thrown:
+                pass
+            # what the scratch holders keep is a function of the previous argument, not of the one to come
+            for m_ in hooks.matrices:
+                if getattr(m_, 'mp', None) is not None and set(m_.mp.t) - {0}:
+                    m_.mp = MP('Aprev', m_.mp.t)
+            hooks.ch = ch
+            hooks.n = n
+            hooks.stale_reads = []
+            hooks.events = []
+            hooks.order_taken = None
+            hooks.s_choice = None
+            hooks.cmps = []
+            hooks.f2i = None
         A = hooks.new_matrix(n, n, 'A', lambda r, c: CPoly(Poly.const(1 + r + 2 * c), Poly.const(0.5 * (r - c))))
         A.mp = MP('A', {1: 1.0})
         A.defined = True
@@ -421,6 +455,12 @@ def explore_paths(db, rep, tables):
             it.call(f, None, [eA.ptr, A.ptr])
         except Thrown as t:
             err = t
+        except Unsupported as e:
+            if warm_n is not None and 'different matrices' in str(e):
+                hooks.stale_reads.append(('scratch', 'an operand that still holds a power of the previous call\'s matrix', str(e)))
+                hooks.order_taken = None
+            else:
+                raise
         return hooks, A, eA, err
 
     for ch, (hooks, A, eA, err) in enumerate_choices(one, limit=3000):
@@ -450,11 +490,22 @@ def explore_paths(db, rep, tables):
         if m == 13 and ells and ch.log and any(l[0].startswith('ell(A,13') and l[1] == 1 for l in ch.log):
             # ell(B,13) > 0 is numerically unreachable with the constants used (see DESIGN 4 C07); the path is not judged
             continue
+        # the extra-scaling test is made on the matrix that will actually be approximated: A itself for the low
+        # orders, the scaled copy 2^-s A for order 13
+        for e in hooks.events:
+            if e[0] == 'ell' and e[1] == m and len(e) > 2:
+                arg_ok = e[2] is not None and e[2].close(MP('A', {1: scale if m == 13 else 1.0}))
+                if arg_ok:
+                    rep.ok('G.pade.ell')
+                else:
+                    rep.fail('G.pade.ell', ('' if warm_n is None else 'after a %dx%d call/' % (warm_n, warm_n)) + 'ell(.,%d)%s' % (m, ('/u=%d' % getattr(hooks, 'u_choice', s)) if m == 13 else ''),
+                             unit.loc(f), 'ell(M,%d) is evaluated for M = %s' % (m, '2^-s A (the scaled matrix)' if m == 13 else 'A'),
+                             'M = %s' % (e[2],), f['name'])
         wantU = MP('A', {j: b[j] * scale ** j for j in range(1, m + 1, 2)})
         wantV = MP('A', {j: b[j] * scale ** j for j in range(0, m + 1, 2)})
         okU = U.mp is not None and U.mp.close(wantU)
         okV = V.mp is not None and V.mp.close(wantV)
-        site = 'pade%d%s' % (m, ('/u=%d' % getattr(hooks, 'u_choice', s)) if m == 13 else '')
+        site = ('' if warm_n is None else 'after a %dx%d call/n=%d/' % (warm_n, warm_n, n)) + 'pade%d%s' % (m, ('/u=%d' % getattr(hooks, 'u_choice', s)) if m == 13 else '')
         if okU and okV:
             rep.ok('G.pade.uv')
             if m in (3, 13):
@@ -889,6 +940,17 @@ def run(db, rep, tier):
     if not stale:
         rep.ok('G.scratch.def', 1)
     check_thresholds(db, rep, thresholds)
+    # "whatever was exponentiated before it on the same thread": the same exploration after a call that left its
+    # powers, its identity and its work matrices in the thread-local holders (same dimension, larger, smaller)
+    for warm_n, n2 in ((3, 3), (3, 4), (4, 3)):
+        seen2, stale2, paths2, _thr = explore_paths(db, rep, tables, n=n2, warm_n=warm_n)
+        rep.notes.append('%d paths explored for a %dx%d matrix after a %dx%d call on the same thread' % (paths2, n2, n2, warm_n, warm_n))
+        for (name, what), where in sorted(stale2.items()):
+            rep.fail('G.scratch.def', 'after a %dx%d call/n=%d/%s/%s' % (warm_n, warm_n, n2, name, what), where if ':' in str(where) else 'src/MatrixExp.cpp',
+                     'the result does not depend on what an earlier call left in the thread-local scratch matrices',
+                     'read of %s' % what, ME + 'matrix_exponential')
+        if not stale2:
+            rep.ok('G.scratch.def', 1)
     check_squaring(db, rep)
     check_power_estimator(db, rep)
     check_diagonal(db, rep)
